@@ -4,12 +4,37 @@ import hashlib
 
 import numpy as np
 
+from sim import core as _core
+
 # trace-header fields that generated and fixture files commonly store, plus never-stored ones
 FIELDS = [189, 193, 181, 185, 1, 5, 21, 73, 77, 115, 117, 37, 9, 71]
 
 
+# every trace-header word of the SEG-Y standard (byte positions), in header order
+ALL_FIELDS = [1, 5, 9, 13, 17, 21, 25, 29, 31, 33, 35, 37, 41, 45, 49, 53, 57, 61, 65, 69, 71, 73, 77, 81, 85, 89, 91, 93,
+              95, 97, 99, 101, 103, 105, 107, 109, 111, 113, 115, 117, 119, 121, 123, 125, 127, 129, 131, 133, 135, 137,
+              139, 141, 143, 145, 147, 149, 151, 153, 155, 157, 159, 161, 163, 165, 167, 169, 171, 173, 175, 177, 179,
+              181, 185, 189, 193, 197, 201, 203, 205, 209, 211, 213, 215, 217, 219, 223, 225, 229, 231]
+
+
+class Sweep(list):
+    """Result of a composite call: one outcome per element (each ('ok', norm) or ('exc', type))."""
+
+
+def acceptable(got, want):
+    """'raises, or equals the true result' — applied element by element to a sweep."""
+    if got[0] == 'exc' or got == want:
+        return True
+    if got[0] == 'ok' and want[0] == 'ok' and got[1][0] == 'sweep' and want[1][0] == 'sweep' \
+            and len(got[1][1]) == len(want[1][1]):
+        return all(g[0] == 'exc' or g == w for g, w in zip(got[1][1], want[1][1]))
+    return False
+
+
 def norm(v):
     """Canonical, hashable, bit-exact summary of a returned value."""
+    if isinstance(v, Sweep):
+        return ('sweep', tuple(v))
     if isinstance(v, np.ndarray):
         a = np.ascontiguousarray(v)
         return ('nd', a.dtype.str, tuple(a.shape), hashlib.sha1(a.tobytes()).hexdigest())
@@ -35,6 +60,8 @@ def outcome(fn):
     """('ok', norm) or ('exc', type name).  Simulator aborts and harness errors pass through."""
     try:
         v = fn()
+    except _core.HarnessError:
+        raise
     except Exception as e:
         return ('exc', type(e).__name__)
     return ('ok', norm(v))
@@ -66,6 +93,12 @@ def apply_call(obj, call):
         return obj.header[_sl(args[0])]
     if name == 'em_attributes':
         return obj.attributes(args[0])
+    if name == 'tracefield_sweep':
+        return Sweep(outcome(lambda f=f: obj.get_tracefield_values(f)) for f in ALL_FIELDS)
+    if name == 'em_attributes_sweep':
+        return Sweep(outcome(lambda f=f: obj.attributes(f)) for f in ALL_FIELDS)
+    if name == 'header_sweep':
+        return Sweep(outcome(lambda i=i: obj.gen_trace_header(i)) for i in args[0])
     if name == 'em_subvolume':
         return obj.subvolume[_sl(args[0]), _sl(args[1]), _sl(args[2])]
     if name == 'em_bin':
@@ -248,10 +281,11 @@ def fixed_battery(m, kind='reader'):
                   ['read_subplane', ntr // 2, ntr // 2 + 1, max(0, n_s - 3), n_s],
                   ['gen_trace_header', 0], ['gen_trace_header', ntr - 1], ['gen_trace_header_all', ntr // 2]]
         calls += [['get_tracefield_values', f] for f in (st[:2] + [37])]
+        calls += [['tracefield_sweep'], ['header_sweep', sorted({0, 1, ntr // 2, ntr - 1})]]
         calls += [['bin_header'], ['text_header'], ['attr', 'zslices'], ['attr', 'tracecount']]
         if kind == 'emulator':
             calls += [['em_trace', 0], ['em_trace', [0, min(ntr, 5), 2]], ['em_header', ntr - 1],
-                      ['em_attributes', st[0] if st else 37], ['em_bin'], ['em_text']]
+                      ['em_attributes', st[0] if st else 37], ['em_attributes_sweep'], ['em_bin'], ['em_text']]
         return calls
     n_il, n_xl = m['n_il'], m['n_xl']
     calls += [['read_inline', 0], ['read_inline', n_il - 1], ['read_crossline', 0], ['read_crossline', n_xl - 1],
@@ -265,12 +299,13 @@ def fixed_battery(m, kind='reader'):
               ['read_zslice_coord', float(m['zslices'][-1])],
               ['gen_trace_header', 0], ['gen_trace_header', ntr - 1], ['gen_trace_header_all', ntr // 2]]
     calls += [['get_tracefield_values', f] for f in (st[:2] + [37])]
+    calls += [['tracefield_sweep'], ['header_sweep', sorted({0, 1, ntr // 2, ntr - 1})]]
     calls += [['bin_header'], ['text_header'], ['attr', 'ilines'], ['attr', 'xlines'], ['attr', 'zslices'],
               ['attr', 'tracecount']]
     if kind == 'emulator':
         ils, xls = m['ilines'], m['xlines']
         calls += [['em_iline', int(ils[0])], ['em_xline', int(xls[-1])], ['em_depth', n_s - 1], ['em_trace', ntr - 1],
                   ['em_trace', [0, min(ntr, 5), 2]], ['em_header', 0], ['em_header', [max(0, ntr - 3), ntr, None]],
-                  ['em_attributes', st[0] if st else 37], ['em_bin'], ['em_text'],
+                  ['em_attributes', st[0] if st else 37], ['em_attributes_sweep'], ['em_bin'], ['em_text'],
                   ['em_subvolume', [None, None, None], [None, None, None], [None, None, None]]]
     return calls
